@@ -39,7 +39,8 @@ def fingerprint_hostname(hostname, strip_suffix=False):
         # TODO: this is not performant because the code path reparses again
         r = split_suffix(hostname)
 
-        if r is not None:
+        # NOTE: a hostname that is nothing but a suffix is kept as is
+        if r is not None and r[0]:
             hostname, _ = r
 
     return strip_lang_subdomains_from_hostname(hostname)
@@ -88,7 +89,8 @@ def fingerprint_url(url, unsplit=True, strip_suffix=False, platform_aware=False)
             # TODO: this is not performant because the code path reparses again
             r = split_suffix(hostname)
 
-            if r is not None:
+            # NOTE: a hostname that is nothing but a suffix is kept as is
+            if r is not None and r[0]:
                 hostname, _ = r
 
     # Dropping port
